@@ -16,7 +16,8 @@ RULE = (
     "the generator's tree and its covariance with G P G^T + V M V^T computed in 60-digit mpmath from central-difference "
     "Jacobians and the named noises (tolerance 1e-9*abs-scale); inputs must be bitwise unchanged and a second call "
     "bit-identical. Non-trivial = >=2 states, >=1 control, V M V^T contributes >=1e-6 of ||P'|| and G is not symmetric "
-    "(so G^T P G would differ); distinct = sha1(model spec)."
+    "(so G^T P G would differ); in half of the cases process noises and prior are scaled together by 1e-14 / 1e-9 / 1e5 "
+    "with the covariance tolerance scaling along; distinct = sha1(model spec)."
 )
 ASSUMPTIONS = [
     "covariances are symmetric positive definite with condition number <= 100 (as the property's quantifier states)",
@@ -37,12 +38,16 @@ def cases(draw):
     inputs = []
     for pt in draw(models.point_sequences(spec, 5, dt=("pos", "neg"), extra_zero_dt=True)):
         inputs.append({"point": pt, "P": draw(ekf.spd(n))})
-    return {"model": spec, "inputs": inputs}
+    # process noises and prior scaled together (floors / clamps / absolute tolerances inside the filter must not matter)
+    return {"model": spec, "inputs": inputs, "scale": draw(st.sampled_from([1.0, 1.0, 1.0, 1e-14, 1e-9, 1e5]))}
 
 
 def case(spec, ctx):
     ctxmod.import_formak()
     m = spec["model"]
+    scale = float(spec.get("scale", 1.0))
+    if scale != 1.0:
+        m = dict(m, process_noise={k_: v_ * scale for k_, v_ in m["process_noise"].items()})
     st_, ct = sorted(m["state"]), sorted(m["control"])
     with ctx.watchdog(20):
         with ctx.formak("compile_ekf", spec):
@@ -50,7 +55,7 @@ def case(spec, ctx):
 
     nontrivial = False
     for inp in spec["inputs"]:
-        p, P = inp["point"], inp["P"]
+        p, P = inp["point"], (np.array(inp["P"]) * scale).tolist()
         state = ekf.state_of(f, m, p)
         control = ekf.control_of(f, m, p)
         cov = ekf.cov_of(f, P)
@@ -84,7 +89,7 @@ def case(spec, ctx):
             got = np.asarray(out.covariance.data, dtype=float)
             if got.shape != (len(st_), len(st_)):
                 ctx.fail("shape:covariance", f"{got.shape}", spec)
-            ok, worst = oracle.mat_close(got, Pref, Pscale)
+            ok, worst = oracle.mat_close(got, Pref, Pscale, floor=scale)
             if not ok:
                 ctx.fail("value:covariance",
                          f"P'[{st_[worst[0]]!r},{st_[worst[1]]!r}] got {worst[2]!r} ref {worst[3]!r}; dt={dt} "
@@ -100,6 +105,7 @@ def case(spec, ctx):
         ctx.event("dt>0" if dt > 0 else ("dt<0" if dt < 0 else "dt=0"))
 
     ctx.event(f"controls={len(ct)}")
+    ctx.event(f"scale={scale:g}")
     ctx.event(f"states={len(st_)}")
     if nontrivial:
         ctx.nontrivial(m)
